@@ -646,8 +646,13 @@ class PopenWorld(World):
             self.child._read_thread.join(timeout=30)
             if not self.child._read_thread.is_alive():
                 self.child.proc.stdout.close()
+            else:
+                _LEAKED.append(self.child.proc.stdout)
         except Exception:
             pass
+
+
+_LEAKED = []      # file objects that must not be closed (by the garbage collector either) while a starved thread may still read them
 
 
 class GatedPopenWorld(World):
@@ -808,6 +813,8 @@ class GatedPopenWorld(World):
             self.child._read_thread.join(timeout=30)
             if not self.child._read_thread.is_alive():        # (see PopenWorld.close)
                 self.child.proc.stdout.close()
+            else:
+                _LEAKED.append(self.child.proc.stdout)
         except Exception:
             pass
         popen_spawn.os, popen_spawn.Queue = self._saved
